@@ -17,8 +17,9 @@ EXHAUSTIVE = {"quick": False, "thorough": False}
 SHARD = 6
 JOBS = 14
 COQ_IMPORTS = "From DS Require Import Model.ADD Spec.Count."
-TRUSTED = ["the loop model of compute_shapley_add is evaluated over the counting SPECIFICATION of C09 (the oracle itself "
-           "is tied to that specification by C09's check)", "scipy.special.comb exact at these sizes"]
+TRUSTED = ["the theorem is about the loop model over the counting SPECIFICATION of C09; the ADD-based oracle is tied to "
+           "that specification by C09's per-instance check (and the C10 theorems), not by a theorem about compile()",
+           "scipy.special.comb exact at these sizes"]
 ASSUMPTIONS = ["pairwise distinct distances per validation point (the property specifies ties only for C01)",
                "positive conjunctive provenance, binary candidates"]
 WORKER_TIMEOUT = 3300
@@ -200,15 +201,22 @@ def shrink(c):
 
 
 MANIFEST = {
-    "text": "Specification v_knn (mean over validation points of the utility of the majority label, lowest class on ties, "
-            "among the K nearest present rows; null when fewer than K rows are present) and an executable model of "
-            "compute_shapley_add's loop (boundary pairs, filters, argmax, weight count/C(n-1,size)) over the counting "
-            "specification of C09; theorems as listed in coverage.theorems of each run (the full statement "
-            "C02_add_is_shapley is kept as a Definition until proved: PARTIAL). Tied to the code at API level: "
+    "text": "Proof: C02_add_is_shapley -- for EVERY K >= 1, number of units, conjunctive hypergraph (shared units, rows "
+            "needing several units, units owning several or no rows), encoded labels, utility table, null vector and "
+            "pairwise distinct distances per validation point, the executable model of compute_shapley_add's loop "
+            "(boundary pairs, filters, argmax, weight count/C(n-1,size), division by units x points) over the exact "
+            "coalition counts of C09's counting specification equals the Shapley value BY DEFINITION of the game v_knn "
+            "(mean over validation points of the utility of the majority label, lowest class on ties, among the K "
+            "nearest present rows; null when fewer than K rows are present); C02_add_point_is_shapley per validation "
+            "point, C02_rank_count (exactly one row of rank K), C02_max_cardinality. PARTIAL in one link only: that "
+            "the ADD-based oracle returns exactly those counts is C09 (correspondence evaluated per instance, plus the "
+            "C10 theorems), not yet a theorem about compile(). Tied to the code at API level on every run: "
             "ShapleyImportance('neighbor', nn_k=K) on conjunctive provenance hypergraphs vs the loop model and vs the "
-            "Shapley value by definition of the KNN game, inside Coq; and vs 'bruteforce' over KNeighborsClassifier(K).",
+            "Shapley value by definition of the KNN game (rank-based and sort-based definitions), inside Coq; and vs "
+            "'bruteforce' over KNeighborsClassifier(K).",
     "note": "Trusted: Coq kernel + vm_compute; harness; the count function is C09's specification. Distinct distances. "
             "F12 (one-unit instances) is an open known finding.",
-    "technique": "Coq specification + executable loop model evaluated against the implementation and against the "
-                 "Shapley value by definition (vm_compute); cross-method check against bruteforce",
+    "technique": "Coq proof (histogram exchange, rank/pigeonhole argument under distinct distances, coalition "
+                 "re-indexing, binomial weights) + executable loop model evaluated against the implementation and "
+                 "against the Shapley value by definition (vm_compute); cross-method check against bruteforce",
 }
